@@ -267,11 +267,13 @@ def pack_dataclass(spec: ValueSpec) -> Optional[Expression]:
             return f"{spec.expression}.{method_name}({flags})"
         else:
             cls_alias = clean_id(type_name(spec.origin_type))
-            method_name_alias = f"{cls_alias}_{method_name}"
-            spec.builder.ensure_object_imported(
-                getattr(spec.attrs, method_name), method_name_alias
-            )
             method_args = spec.expression
+            method = getattr(spec.attrs, method_name, None)
+            if method is None:
+                # self reference: the method is being built right now
+                return f"{spec.self_attrs_name}.{method_name}({method_args})"
+            method_name_alias = f"{cls_alias}_{method_name}"
+            spec.builder.ensure_object_imported(method, method_name_alias)
             return f"{method_name_alias}({method_args})"
 
 
